@@ -189,4 +189,83 @@ theorem Code.size_genAll (C : Code) (h : Heap) (ms : List Bits) : (C.genAll h ms
     simp only [Code.genAll, List.map_cons, runHistory, List.foldl_cons] at this ⊢
     rw [this]; simp [HOp.run, Heap.size_push]; omega
 
+/-! ### rejected calls; the memory of an ndarray argument -/
+
+/-- a history with rejected calls is the history without them -/
+theorem runHistoryE_eq (h : Heap) (ops : List HOp) :
+    runHistoryE h ops = runHistory h (ops.filter HOp.accepted) := by
+  induction ops generalizing h with
+  | nil => rfl
+  | cons op ops ih =>
+    simp only [runHistoryE, List.foldl_cons, List.filter_cons] at ih ⊢
+    by_cases ha : op.accepted = true
+    · simp only [ha, if_true, runHistory, List.foldl_cons, HOp.runE]
+      exact ih _
+    · simp only [ha, HOp.runE]
+      exact ih _
+
+theorem foldl_replicate_zero (k : Nat) : (List.replicate k 0).foldl (fun acc b => 256 * acc + b) 0 = 0 := by
+  induction k with
+  | zero => rfl
+  | succ k ih => simp [List.replicate_succ, ih]
+
+theorem elemVal_elemBytes (L : NdLayout) (b : Bool) : elemVal L.big (elemBytes L b) = b.toNat := by
+  unfold elemVal elemBytes
+  cases hb : L.big
+  · simp [List.foldl_append, foldl_replicate_zero]
+  · simp [List.foldl_append, foldl_replicate_zero]
+
+theorem elemBytes_length (L : NdLayout) (b : Bool) (hsz : 0 < L.sz) : (elemBytes L b).length = L.sz := by
+  unfold elemBytes
+  split <;> simp <;> omega
+
+theorem elemBit_elemBytes (L : NdLayout) (b : Bool) (hsz : 0 < L.sz) : elemBit L (elemBytes L b) = some b := by
+  unfold elemBit
+  rw [elemBytes_length L b hsz, elemVal_elemBytes]
+  cases b <;> simp
+
+theorem ndBitsAux_ndBody (L : NdLayout) (pad : Nat) (w : Bits) (hsz : 0 < L.sz) (hst : L.sz ≤ L.stride) :
+    ndBitsAux L w.length (ndBody L pad w) = some w := by
+  induction w with
+  | nil => rfl
+  | cons b w ih =>
+    have hl := elemBytes_length L b hsz
+    have htake : (ndBody L pad (b :: w)).take L.sz = elemBytes L b := by
+      simp only [ndBody]
+      rw [← hl, List.take_left']
+      rfl
+    have hdrop : (ndBody L pad (b :: w)).drop L.stride = ndBody L pad w := by
+      simp only [ndBody]
+      rw [← List.append_assoc]
+      apply List.drop_left'
+      simp [hl]; omega
+    simp only [List.length_cons, ndBitsAux, htake, hdrop, elemBit_elemBytes L b hsz, ih]
+
+/-- whatever the layout (item size, byte order, offset, stride, neighbouring octets): the view shows
+the bits it was built from -/
+theorem bitsOfNd_ndOfBits (L : NdLayout) (pad : Nat) (w : Bits) (hsz : 0 < L.sz) (hst : L.sz ≤ L.stride) :
+    bitsOfNd L (ndOfBits L pad w) w.length = some w := by
+  unfold bitsOfNd ndOfBits
+  rw [List.drop_left' (by simp)]
+  exact ndBitsAux_ndBody L pad w hsz hst
+
+namespace Code
+
+theorem genNd_nd (C : Code) (L : NdLayout) (pad : Nat) (m : Bits) (hsz : 0 < L.sz) (hst : L.sz ≤ L.stride)
+    (hm : m.length = C.k) : C.genNd L (ndOfBits L pad m) C.k = some (C.gen m) := by
+  unfold genNd
+  rw [← hm, bitsOfNd_ndOfBits L pad m hsz hst]; simp
+
+theorem checkNd_nd (C : Code) (L : NdLayout) (pad : Nat) (w : Bits) (hsz : 0 < L.sz) (hst : L.sz ≤ L.stride)
+    (hw : w.length = C.n) : C.checkNd L (ndOfBits L pad w) C.n = some (C.check w) := by
+  unfold checkNd
+  rw [← hw, bitsOfNd_ndOfBits L pad w hsz hst]; simp
+
+theorem correctNd_nd (C : Code) (L : NdLayout) (pad : Nat) (w : Bits) (hsz : 0 < L.sz) (hst : L.sz ≤ L.stride)
+    (hw : w.length = C.n) : C.correctNd L (ndOfBits L pad w) C.n = some (C.correct w) := by
+  unfold correctNd
+  rw [← hw, bitsOfNd_ndOfBits L pad w hsz hst]; simp
+
+end Code
+
 end Dmr
